@@ -560,6 +560,7 @@ func init() {
 
 		l.p("/-- `EscapeJsonStr` skips every rune that is not (RuneError, size 1) by its size — in particular a well-formed U+FFFD -/")
 		l.p("def escapeJsonSkipsValidRunes : Bool := %s", leanBool(fix))
+		c13IngestFacts(l)
 		l.write()
 		// census of the panic sites of pkg/lql -> Generated/C13Sites.lean (c13_sites.go)
 		c13Sites(l)
